@@ -189,12 +189,15 @@ def add_fanout(rng, prog):
         if len(ls) >= 3 and rng.random() < 0.7:
             # a listener that is not the last one unsubscribes itself after a few notifications
             ls[rng.randrange(len(ls) - 1)]["script"].append(["unsub", rng.randint(1, 3)])
+        if len(ls) >= 2 and rng.random() < 0.5:
+            # a listener that is not the last one subscribes a second time (ignored by the documentation: its place is kept)
+            ls[rng.randrange(len(ls) - 1)]["script"].insert(0, ["resub", rng.randint(1, 3)])
         fan[tname] = ls
     prog["fanout"] = fan
     n = 0
     for tag, acts in prog["handlers"].items():
         if rng.random() < 0.5 and n < 8:
-            acts.insert(rng.randrange(len(acts) + 1), ["fanfire", rng.choice(list(fan))])
+            acts.insert(rng.randrange(len(acts) + 1), ["fanfire", rng.choice(list(fan)), rng.choice(["fire", "fire_timed", "fire_event", "fire_timed_event"])])
             n += 1
     if n == 0 and prog["handlers"]:
         next(iter(prog["handlers"].values())).append(["fanfire", next(iter(fan))])
